@@ -159,15 +159,16 @@ class World:
             return 'raise', r.exc_type
 
 
-def fit_through_public(w, repo, data, *, peaks, bkgs, windows=None, window=None, estimates=None, width=None, requirements=None):
+def fit_through_public(w, repo, data, *, peaks, bkgs, windows=None, window=None, estimates=None, width=None, requirements=None, parameters=None):
     """fit_peaks(...) itself: explicit windows (one row per estimate) or a 0-d width.  Returns (kind, list of FitResult | exc)."""
     ffi = repo.func(MOD, 'fit_peaks')
     if window is not None:
         windows = w.model.matrix(w.it, [window], 'x')
         wv = [w.model.value(x) for x in items_of(window)]
         estimates = w.model.array(w.it, [w.scalar('c0', ANG, (wv[0] + wv[1]) / 2)], 'x')
-    kwargs = {'peak_estimates': estimates, 'windows': windows if windows is not None else width, 'background': bkgs, 'peak': peaks,
-              'fit_parameters': fit_params(w)}
+    kwargs = {'peak_estimates': estimates, 'windows': windows if windows is not None else width, 'background': bkgs, 'peak': peaks}
+    if parameters is not None:
+        kwargs['fit_parameters'] = parameters  # otherwise the package's own defaults apply (they are part of the behaviour)
     if requirements is not None:
         kwargs['fit_requirements'] = requirements
     return w.call(ffi, [data], kwargs)
@@ -467,15 +468,19 @@ def run(tier: str) -> Run:
         'estimates farther outside the data than half a window': ((-20, 30, 90), 10),
         'a single estimate': ((30,), 100),
     }
-    for name, (centres, width) in layouts.items():
+    # every layout with the exact documented separation factor (terms compared exactly), and the crowded one again with the package's
+    # own default parameters (the default is part of the behaviour; a float 1/3, compared at the witness to 1e-12)
+    runs5 = [(n_, v_, True) for n_, v_ in layouts.items()] + [('windows wider than the peak distance [default parameters]', layouts['windows wider than the peak distance'], False)]
+    for name, (centres, width), use_exact in runs5:
         w = World(repo)
+        fp = fit_params(w)
         data = w.data(61)  # x = 0 .. 60
         cs = [w.scalar(f'c{i}', ANG, c) for i, c in enumerate(centres)]
         centre = w.model.array(w.it, cs, 'x')
         wd = w.scalar('width', ANG, width, positive=True)
         peak, bkg = steer(w, width=2)
         # the windows are what fit_peaks reports in its results when it is given a width instead of explicit windows
-        kind, res = fit_through_public(w, repo, data, peaks=peak, bkgs=bkg, estimates=centre, width=wd)
+        kind, res = fit_through_public(w, repo, data, peaks=peak, bkgs=bkg, estimates=centre, width=wd, parameters=fp if use_exact else None)
         probs = []
         wins = [r_.attrs.get('window') for r_ in res] if kind == 'return' and isinstance(res, list) and all(isinstance(r_, SObj) for r_ in res) else None
         if wins is None or len(wins) != len(centres) or not all(isinstance(x, SVar) and items_of(x) is not None and len(items_of(x)) == 2 for x in wins):
@@ -500,7 +505,7 @@ def run(tier: str) -> Run:
                 if ev(want_lo) > ev(hi_d):
                     want_lo = hi_d
                 for label, got, want in (('lower', lo_c, want_lo), ('upper', hi_c, want_hi)):
-                    if not (isinstance(got.term, Rat) and (got.term.eq(want) or ev(got.term) == ev(want))):
+                    if not (isinstance(got.term, Rat) and (got.term.eq(want) or ev(got.term) == ev(want) or (not use_exact and abs(ev(got.term) - ev(want)) < F(1, 10 ** 12) * ev(u)))):
                         probs.append(f'{label} edge of window {i}: {T.show(got.term) if got.term is not None else None}, expected {T.show(want)}')
         r5.check(not probs, name, where5, {'problems': probs[:3]}, key='_fit_windows')
 
